@@ -14,6 +14,8 @@ What is extracted
     statements (clear before the run, set in `finally`), the notify guard `!=` in __check__ and in
     ServiceStatus.set
   * the condition and statement order of _reset_waits, and return_when of the asyncio.wait in Watch
+  * ServiceCheck.__subscribe__ / __unsubscribe__ / _poll: a poll task is started iff _poll_task is None; whether
+    _poll_task is forgotten before or after the suspension in `await task`
 Status codes used in the generated file: True = 1, False = 0, None = 2."""
 import ast
 import os
@@ -275,6 +277,39 @@ def service_status_facts(tree):
     return notify_guard(body[2])
 
 
+def poll_facts(tree):
+    """ServiceCheck.__subscribe__ / __unsubscribe__: who starts and who forgets the poll task"""
+    sub = func_node(tree, '__subscribe__', 'ServiceCheck')
+    body = [u(s) for s in sub.body]
+    need(len(sub.body) == 4 and isinstance(sub.body[0], ast.If) and body[1:] ==
+         ['event = asyncio.Event()', 'self._events.add(event)', 'return event'], '__subscribe__ body')
+    first = sub.body[0]
+    starts_when_none = u(first.test) == 'self._poll_task is None' and not first.orelse and \
+        [u(x) for x in first.body] == ['loop = asyncio.get_event_loop()',
+                                       'self._poll_task = loop.create_task(self._poll())']
+    need(starts_when_none or u(first.test) in ('self._poll_task is not None', 'not self._events', 'True'),
+         '__subscribe__ poll start ' + u(first.test))
+    un = func_node(tree, '__unsubscribe__', 'ServiceCheck')
+    need(len(un.body) == 2 and u(un.body[0]) == 'self._events.discard(event)' and isinstance(un.body[1], ast.If)
+         and u(un.body[1].test) == 'not self._events' and not un.body[1].orelse, '__unsubscribe__ skeleton')
+    inner = un.body[1].body
+    texts = [u(x) for x in inner]
+    wait = 'try:\n    await task\nexcept asyncio.CancelledError:\n    pass'
+    need(sorted(texts) == sorted(['assert self._poll_task is not None', 'task = self._poll_task',
+                                  'self._poll_task = None', 'task.cancel()', wait]),
+         '__unsubscribe__ statements ' + repr(texts))
+    need(texts.index('task = self._poll_task') < texts.index('task.cancel()') < texts.index(wait)
+         and texts.index('task = self._poll_task') < texts.index('self._poll_task = None'),
+         '__unsubscribe__ statement order')
+    cleared_before_await = texts.index('self._poll_task = None') < texts.index(wait)
+    poll = func_node(tree, '_poll', 'ServiceCheck')
+    need(len(poll.body) == 1 and isinstance(poll.body[0], ast.While) and u(poll.body[0].test) == 'True'
+         and u(poll.body[0].body[0]) == 'status = await self.__check__()'
+         and all('await asyncio.sleep(self._check_ttl)' in u(x) for x in poll.body[0].body[1:])
+         and len(poll.body[0].body) == 2, '_poll loop')
+    return starts_when_none, cleared_before_await
+
+
 def b(x):
     return 'true' if x else 'false'
 
@@ -305,6 +340,7 @@ def generate(repo):
     need(cattr.get('_value') == 'None' and cattr.get('_last_check') == 'None', 'initial _value/_last_check')
     sc = service_check_facts(chk)
     set_notify = service_status_facts(chk)
+    starts_when_none, cleared_before_await = poll_facts(chk)
     out = []
     out.append('(* GENERATED by tools/facts_C19.py from grpclib/health/{service,check}.py, health.proto -- do not edit *)')
     out.append('From Coq Require Import ZArith List Bool.')
@@ -335,6 +371,9 @@ def generate(repo):
     out.append('Definition check_failure_value : Z := %d.' % sc['fail_value'])
     out.append('Definition check_notifies_on_change : bool := %s.' % b(sc['notify']))
     out.append('Definition set_notifies_on_change : bool := %s.' % b(set_notify))
+    out.append('Definition subscribe_starts_poll_when_none : bool := %s.' % b(starts_when_none))
+    out.append('Definition poll_cleared_before_await : bool := %s.   (* __unsubscribe__ forgets the poll task before it '
+               'suspends in `await task` *)' % b(cleared_before_await))
     return '\n'.join(out) + '\n'
 
 
